@@ -49,6 +49,7 @@ AsmWhy(r) ==
      \* ---- C02
   \cup (IF r.parse = "ok" /\ r.panic = 0 /\ (ok # wf) THEN {"accept"} ELSE {})
   \cup (IF r.parse = "ok" /\ r.panic = 0 /\ ~ok /\ ~wf /\ r.res \notin ViolatedKindsI(prog, X, D) THEN {"kind"} ELSE {})
+  \cup (IF r.parse = "ok" /\ r.panic = 0 /\ ~ok /\ wf THEN {"wf-rejected"} ELSE {})
      \* ---- C01: the image, nothing else, and the labels
   \cup (IF ok /\ wf /\ ImageOfBlocks(o.blocks) # ImageSpecI(prog, X, D) THEN {"image"} ELSE {})
   \cup (IF p1ok /\ wf /\ LabelAddrsOfObj(stl) # LabelSpecI(D) THEN {"labels"} ELSE {})
